@@ -162,6 +162,33 @@ def rule_roundtrip(ctx) -> None:
     some = ext.members()[min(1, len(ext.members()) - 1)]
     table += [("CmdKeyStoreBackup", [{"address": 0x100, "controller_id": some}]), ("CmdKeyStoreRestore", [{"address": 0x100, "controller_id": some}])]
     roundtrip.check_classes(ctx, "C04.cmd-roundtrip", CMD, table, floor=12)
+    # the image header: versions, flags, block counts and the nonce come back; time stamps are a leaf (pack/unpack_timestamp are decided
+    # by C04.timestamp), the header padding is random filler that parse does not keep (not content)
+    from ..engines import ordereval as _oe
+
+    def lv(c: ast.Call, ev):
+        f = norm(c.func)
+        if f == "pack_timestamp" and len(c.args) == 1:
+            return ev.ev(c.args[0])._ts
+        if f == "unpack_timestamp" and len(c.args) == 1:
+            return _oe.Obj(_ts=ev.ev(c.args[0]))
+        if f == "datetime.now" and not c.args:
+            return _oe.Obj(_ts=0)
+        if f == "datetime.fromtimestamp" and len(c.args) == 1:
+            return _oe.Obj(_ts=ev.ev(c.args[0]))
+        if isinstance(c.func, ast.Attribute) and c.func.attr == "timestamp" and not c.args:
+            o = ev.ev(c.func.value)
+            if isinstance(o, _oe.Obj) and "_ts" in o.__dict__:
+                return o._ts
+        return _oe.NOT_MODELLED
+    hdr_models = [{"version": "2.1", "product_version": "1.2.3", "component_version": "4.5.6", "build_number": 9, "flags": 0x8008, "nonce": bytes(range(16)),
+                   "timestamp": _oe.Obj(_ts=0x11223344), "padding": bytes(8),
+                   "__setup1": "obj.image_blocks = 0x101; obj.first_boot_tag_block = 0x22; obj.first_boot_section_id = 3; obj.offset_to_certificate_block = 0xA0; "
+                               "obj.header_blocks = 6; obj.max_section_mac_count = 17"},
+                  {"version": "2.0", "product_version": "999.999.999", "component_version": "0.0.1", "build_number": 0, "flags": 0x08, "nonce": bytes(range(16, 32)),
+                   "timestamp": _oe.Obj(_ts=1), "padding": bytes(8)}]
+    roundtrip.check_classes(ctx, "C04.header-roundtrip", HDR, [("ImageHeaderV2", hdr_models, {"ignore": ("padding",), "reexport": False})],
+                            {"BcdVersion3": ctx.cls(MISC, "BcdVersion3")}, lv, floor=1)
 
 
 def rule_routes(ctx) -> None:
